@@ -436,7 +436,7 @@ def r4_subtest(report, repo):
         dotted(c.args[2]) != 'in_teardown':
       return 'subtest sequence not executed with (subtest, own record, in_teardown)'
     rv = p.last_return().value
-    src = p.value_of(rv.id) if isinstance(rv, ast.Name) else rv
+    src = cfgm.path_resolve(p, rv, before_index=len(p.steps) - 1)
     if src is not c:
       return 'subtest does not return the result of its sequence'
     assigns = [
@@ -581,11 +581,12 @@ def r5_records(report, repo):
       report.check(ok, rule, f.qualname, 'skip-record', f.node,
                    'skip_checkpoint writes exactly one record with result SKIP')
 
-  f = repo.func(TE, 'TestExecutor._subtest_context')
+  # (the subtest context manager, if there is one, is inlined by the loader:
+  # the rule reads the executing function)
+  f = repo.func(TE, 'TestExecutor._execute_subtest')
   g = lib.cfg(f)
-  ys = [n for n in g.nodes if n.kind == 'stmt' and any(
-      isinstance(x, ast.Yield) for x in n.subnodes())]
-  report.expect_instances(rule, len(ys), 1, 'subtest context yields')
+  ys = [n for n, c_ in lib.nodes_with_call(g, name='self._execute_sequence')]
+  report.expect_instances(rule, len(ys), 1, 'subtest body executions')
   adds = lib.nodes_with_call(g, attr='add_subtest_record')
   ok = len(adds) == 1 and g.must_pass(
       ys[0], g.is_normal_exit, lambda n: n is adds[0][0],
